@@ -174,10 +174,9 @@ pub fn check_ledger(ledger: &[Tx], obs: &mut Obs) -> Verdict {
             Verdict::fail(format!("report produced although sales are not covered: {:?}\n{dsl}", uncovered.iter().map(|(k, d, q)| format!("{k} {d} short by {q}")).collect::<Vec<_>>()))
         }
         (false, Outcome::Err(e)) => {
-            let CgtError::InvalidTransaction(text) = &e else {
-                return Verdict::fail(format!("uncovered ledger failed with the wrong kind of error: {e}\n{dsl}"));
-            };
-            let names = uncovered.iter().any(|(k, d, _)| text.contains(k.as_str()) && text.contains(&d.format("%Y-%m-%d").to_string()));
+            // whatever the error type: its text must name the security and the date (ISO or UK form)
+            let text = &e.to_string();
+            let names = uncovered.iter().any(|(k, d, _)| text.to_uppercase().contains(k.to_uppercase().as_str()) && (text.contains(&d.format("%Y-%m-%d").to_string()) || text.contains(&d.format("%d/%m/%Y").to_string())));
             if names {
                 Verdict::Pass
             } else if is_f3(ledger, text) {
